@@ -201,7 +201,8 @@ def fetchDs (sub : Query → Res) (zone : DName) : DsFetch :=
       if au.getD false then .err .insecure
       else if !sup.isEmpty then .ok sup
       else .err .bogus
-    else if !(m.an.any (·.rtype == tDS)) then
+    else if m.an.isEmpty then
+      -- only a negative response is a denial of the DS RRset (fix aabfc01):
       -- "marking zone as insecure based on secure NSEC/NSEC3 proof or insecure parent zone"
       .err .insecure
     else .err .bogus
@@ -266,6 +267,8 @@ def keyProofs (env : Env) (recs : List Rec) (ds : List Rec) : List Proof :=
   recs.map fun r => if env.anchor r.rid then .secure else verifyDnskey env r ds
 
 def verifyDnskeyRrset (env : Env) (sub : Query → Res) (gid : GroupId) (recs sigs : List Rec) : GV :=
+  -- RRSIGs covering DNSKEY without any DNSKEY record: Bogus, the first RRSIG marked (fix e338561)
+  if recs.isEmpty then .done .bogus (if sigs.isEmpty then none else some 0) else
   let allAnchors := recs.all fun r => env.anchor r.rid
   let dsr : DsFetch := if !allAnchors && !gid.name.isRoot then fetchDs sub gid.name else .ok []
   match dsr with
@@ -280,10 +283,11 @@ def verifyDnskeyRrset (env : Env) (sub : Query → Res) (gid : GroupId) (recs si
       match firstSig env gid (recs.zip p1) sigs 0 with
       | some (p, i) => .done p (some i)
       | none =>
-        if p1.all (· == .secure) then
+        -- the no-signature shortcut is for trust anchors only (fix 8ec5af8)
+        if allAnchors && p1.all (· == .secure) then
           match p1.getLast? with
           | some p => .done p none
-          | none => .abort "panic"  -- `dnskey_proofs.pop().unwrap()`
+          | none => .abort "panic"  -- `dnskey_proofs.pop().unwrap()`: unreachable, `recs` is not empty
         else .done .bogus none
 
 /-! ## `verify_rrsig_with_keys` -/
@@ -400,6 +404,11 @@ def allAuthInsecure (ns' : List Rec) (vn : List (GKey × GV)) : Bool :=
 def selectDenial (ns' : List Rec) (t : Nat) : List (Rec × Nat) :=
   ns'.zipIdx.filter fun ri => ri.1.rtype == t && ns'.any fun x => x.name == ri.1.name && x.proof == .secure
 
+/-- a record (not just an RRSIG) of the queried type, or a CNAME, at the query name -/
+def answersTheQuestion (q : Query) (an : List Rec) : Bool :=
+  an.any fun r => r.name == q.name &&
+    (r.rtype == q.qtype || r.rtype == 5 || (q.qtype == 255 && r.rtype != tRRSIG))
+
 def verifyMsg (env : Env) (sub : Query → Res) (d : Nat) (q : Query) (qid : Nat) (m : Msg) : Res :=
   let va := verdicts env sub d q qid 0 m.an
   let vn := verdicts env sub d q qid 1 m.ns
@@ -408,8 +417,19 @@ def verifyMsg (env : Env) (sub : Query → Res) (d : Nat) (q : Query) (qid : Nat
   | some w => .abort w
   | none =>
     let m' : Msg := { rcode := m.rcode, an := relabel m.an va, ns := relabel m.ns vn, ad := relabel m.ad vd }
-    if allAuthInsecure m'.ns vn then .ok m'
-    else
+    let dsName := if q.qtype == tDS then q.name.baseName else q.name
+    -- Insecure authority records settle the response only if the query name itself lies in a provably
+    -- insecure zone (fix 2bee91e)
+    let early : Option Res :=
+      if allAuthInsecure m'.ns vn then
+        match findDs env sub dsName with
+        | .abort w => some (.abort w)
+        | .err .insecure => some (.ok m')
+        | _ => none
+      else none
+    match early with
+    | some r => r
+    | none =>
       let nsec3s := selectDenial m'.ns tNSEC3
       let nsecs := selectDenial m'.ns tNSEC
       let ansMask := maskOf (m'.an.zipIdx.filter fun ri => ri.1.isSig && ri.1.proof == .secure)
@@ -420,9 +440,10 @@ def verifyMsg (env : Env) (sub : Query → Res) (d : Nat) (q : Query) (qid : Nat
       | true, true, _ => .errNsec .bogus
       | false, false, true => .errNsec .bogus
       | false, false, false =>
-        if !m'.an.isEmpty then .ok m'
+        -- "answers present" only counts if they answer the question (fix 2bee91e)
+        if answersTheQuestion q m'.an then .ok m'
         else
-          match findDs env sub (if q.qtype == tDS then q.name.baseName else q.name) with
+          match findDs env sub dsName with
           | .abort w => .abort w
           | .err .insecure => .ok m'
           | _ => .errNsec .bogus
@@ -488,12 +509,13 @@ def forwarded (q : Query) : Res → Fwd
     else .answers m
   | _ => .error
 
-/-- the records the summary is taken over: the answers, or — for a negative answer that has a SOA — the
-authority records other than the SOA (the SOA itself is not looked at); without a SOA, nothing -/
+/-- the records the summary is taken over (fix cdd0f6a): the answers; if there are none, the authority section
+— for a `NoRecordsFound` the authority records other than SOAs followed by the first SOA, which is also what
+the server forwards as the authority section -/
 def summarised (q : Query) (r : Res) : List Rec :=
   match forwarded q r with
-  | .answers m => m.an
-  | .noRecords m => if m.ns.any (·.rtype == tSOA) then m.ns.filter (·.rtype != tSOA) else []
+  | .answers m => if !m.an.isEmpty then m.an else m.ns
+  | .noRecords m => m.ns.filter (·.rtype != tSOA) ++ (m.ns.find? (·.rtype == tSOA)).toList
   | .error => []
 
 /-- response code and AD bit of the forwarded response (`build_forwarded_response`) for a client with RD and
